@@ -639,6 +639,7 @@ func (fc *FnCtx) runLoop(st *State, lp loopParts) []Outcome {
 		}
 	}
 	// 2. modified set by dry run
+	nScansAtHead := len(st.scans)
 	iter := func(s *State, check bool) (exit *State, outs []Outcome) {
 		var m0 []string
 		if check {
@@ -671,6 +672,14 @@ func (fc *FnCtx) runLoop(st *State, lp loopParts) []Outcome {
 						continue
 					}
 					if check {
+						// scanners created inside this iteration end with it: protocol obligation here
+						if tags := c.Opts["scan-complete"]; tags != "" {
+							for si := nScansAtHead; si < len(e.St.scans); si++ {
+								f := fc.readKey(e.St, e.St.scans[si]+".failed", types.Typ[types.Bool])
+								fc.oblige(e.St, fmt.Sprintf("scan-complete#L%d.%d", lp.ord, si-nScansAtHead), "scan-complete", strings.Fields(tags), not(f.T),
+									"scanner created in the loop body stopped only at end of input, or its error was reported", lp.stmt)
+							}
+						}
 						fc.applyUses(e.St, "use-loop", lp.ord, lp.bodyPos, lp.stmt)
 						for i, cl := range invs {
 							fc.oblige(e.St, fmt.Sprintf("inv-keep#%d/%s", lp.ord, label(i, cl)), "inv-keep", c.tagsFor(cl), trClause(e.St, cl), "loop invariant preserved: "+cl.Text, lp.stmt)
